@@ -503,6 +503,9 @@ class Folder:
                     raise AnalysisError(
                         f'folding: {unparse(e)} raises {type(ex).__name__} '
                         f'at {mod.loc(e)} (key {k!r})')
+            if isinstance(c, Sym):
+                return Sym(('item', c.key,
+                            k.key if isinstance(k, Sym) else repr(k)))
             raise AnalysisError(f'folding: subscript of {c!r} at '
                                 f'{mod.loc(e)}')
         if isinstance(e, ast.Attribute):
@@ -579,10 +582,14 @@ class Folder:
         if isinstance(op, (ast.In, ast.NotIn)):
             if isinstance(b, GuardedList):
                 raise AnalysisError('folding: membership in guarded list')
-            if isinstance(b, (list, tuple, dict, set, str)):
+            if isinstance(b, (list, tuple, dict, set, frozenset, str)):
                 if isinstance(a, (Sym, Inst)):
                     raise AnalysisError('folding: symbolic membership')
                 r = a in b
+                return r if isinstance(op, ast.In) else not r
+            if isinstance(b, Sym) and not isinstance(a, (Inst, )):
+                r = self.truth(Sym(('in', a.key if isinstance(a, Sym)
+                                    else repr(a), b.key)))
                 return r if isinstance(op, ast.In) else not r
             raise AnalysisError(f'folding: "in" on {b!r}')
         if isinstance(a, Sym) or isinstance(b, Sym):
@@ -814,6 +821,11 @@ class Folder:
             en = dict(lenv)
             en.update(dict(zip(names, args)))
             return self.expr(lam.body, en, lmod, depth + 1)
+        if isinstance(f, Sym) and not kwargs:
+            # a method of an opaque value: an opaque value determined by the
+            # receiver and the arguments (same call, same answer)
+            return Sym(('call', f.key) + tuple(
+                a.key if isinstance(a, Sym) else repr(a) for a in args))
         raise AnalysisError(
             f'folding: call of {f!r} at {mod.loc(e)} not modelled')
 
@@ -830,6 +842,8 @@ class Folder:
         if name == 'len':
             if isinstance(args[0], GuardedList):
                 return len(self.concretise(args[0]))
+            if isinstance(args[0], Sym):
+                return Sym(('len', args[0].key))
             return len(args[0])
         if name == 'str':
             return self.to_str(args[0], e, mod, depth)
